@@ -21,12 +21,14 @@ theorem c01_on_source (c : Cfg) (pre : Nat → Option File) (n p : Nat) (f : Fil
 theorem generated_all_ops_known_c01 : taskSemKnown = true := by decide
 
 
+
 -- BEGIN PINS (written by bin/mkpins; do not edit by hand)
 /-- the Go functions this property's model and obligations were written against have exactly the
 pinned skeletons (SHA-256 prefix of the atom list) -/
 theorem pinned_skeletons_c01 :
     pinsOk
-    [("Scipipe.FileIP_TempPath", "7eba22a35232a5cb"),
+    [("Scipipe.#decls", "7633eb8a74616d59"),
+     ("Scipipe.FileIP_TempPath", "7eba22a35232a5cb"),
      ("Scipipe.FinalizePaths", "291fc0cefa37cea9"),
      ("Scipipe.Task_Execute", "40fd1fec0c69deb2"),
      ("Scipipe.Task_anyOutputsExist", "0609a842b7aaf7a8"),
